@@ -135,7 +135,9 @@ def store_strategy():
       st.tuples(st.just('set_trial'), tref, nsidx, key, _value()),
       st.tuples(st.just('delta'), st.lists(item, min_size=1, max_size=4)),
       st.tuples(st.just('suggest'), st.sampled_from(['w1', 'w2']),
-                st.integers(1, 2), st.lists(algo_item, max_size=3)),
+                st.integers(1, 2), st.lists(algo_item, max_size=3),
+                # the algorithm may deliver nothing and still persist state
+                st.sampled_from(['exact', 'exact', 'nothing'])),
       st.tuples(st.just('create_trial'),
                 st.lists(st.tuples(nsidx, key, _value()).map(list),
                          max_size=2)),
@@ -311,8 +313,12 @@ def check_store(case):
           if len(items) > 1:
             out.cls('mixed_delta_with_missing_trial')
       elif kind == 'suggest':
-        _, worker, n, writes = op
+        _, worker, n, writes = op[:4]
+        delivery = op[4] if len(op) > 4 else 'exact'
         idx = plan.suggest_calls
+        while len(plan.deliveries) <= idx:
+          plan.deliveries.append(0)
+        plan.deliveries[idx] = -10 if delivery == 'nothing' else 0
         resolved = []
         for scope, nsx, key, v in writes:
           if scope == 'study':
@@ -334,6 +340,8 @@ def check_store(case):
                   for sc, ns, key, v in resolved])
           if resolved:
             out.cls('algorithm_write')
+            if delivery == 'nothing':
+              out.cls('algorithm_write_with_zero_suggestions')
         for t in svc.suggest_response(o).trials:
           if int(t.id) not in trials:
             trials.append(int(t.id))
@@ -387,6 +395,8 @@ def families(tier):
                   required_classes=('overwrite', 'hostile_ns',
                                     'missing_trial_update',
                                     'mixed_delta_with_missing_trial',
-                                    'algorithm_write', 'via_raw', 'via_client',
+                                    'algorithm_write',
+                                    'algorithm_write_with_zero_suggestions',
+                                    'via_raw', 'via_client',
                                     'ram', 'sqlmem')),
   ]
